@@ -74,6 +74,10 @@ type e2eRig struct {
 	PD, PU, PM, PS   *g01rig.Proxy  // direct, via upstream proxy, MITM, direct with a short ReadHeaderTimeout
 	tagD, tagU, tagM string
 	tagS             string
+	PR               *g01rig.Proxy // direct, configured with header rules and site credentials
+	tagR             string
+	cfgR             ruleCfg
+	cmR              *forwarder.CredentialsMatcher
 }
 
 func learn(o *g01rig.Origin, sink *g01rig.Origin, p *g01rig.Proxy) (string, error) {
@@ -139,7 +143,20 @@ func newE2ERig() (*e2eRig, error) {
 	if err != nil {
 		return nil, err
 	}
-	rg := &e2eRig{O: o, P: p, T: t, PD: pd, PU: pu, PM: pm, PS: ps}
+	cfgR := ruleCfg{Name: "e2e rules + origin credentials", Req: []string{"X-Added: by-proxy", "-X-B", "X-Empty;", "%x-custom-id", "-sec-web*", "Cookie: extra=1"},
+		Creds: []string{"site:secret@" + o.Addr()}}
+	cmR := credentialsFor(cfgR)
+	pr, err := g01rig.StartProxyOpts("forwarder", g01rig.ProxyOpts{ConnectHeaderCallback: true, Credentials: cmR, Tweak: func(cfg *forwarder.HTTPProxyConfig) {
+		deny(cfg)
+		cfg.RequestModifiers = append(cfg.RequestModifiers, requestModifierFor(cfgR))
+	}})
+	if err != nil {
+		return nil, err
+	}
+	rg := &e2eRig{O: o, P: p, T: t, PD: pd, PU: pu, PM: pm, PS: ps, PR: pr, cfgR: cfgR, cmR: cmR}
+	if rg.tagR, err = learn(o, o, pr); err != nil {
+		return nil, err
+	}
 	if rg.tagS, err = learn(o, o, ps); err != nil {
 		return nil, err
 	}
@@ -160,6 +177,7 @@ func (rg *e2eRig) stop() {
 	rg.PU.Stop()
 	rg.PM.Stop()
 	rg.PS.Stop()
+	rg.PR.Stop()
 	rg.O.Close()
 	rg.P.Close()
 	rg.T.Close()
@@ -242,6 +260,8 @@ func (rg *e2eRig) runConn(c xconn) ([]xobsJ, []sentInfo) {
 		px, sink, tag, origin = rg.PM, rg.T, rg.tagM, rg.T.Addr()
 	case "S":
 		px, tag = rg.PS, rg.tagS
+	case "R":
+		px, tag = rg.PR, rg.tagR
 	}
 	obs := make([]xobsJ, len(c.Reqs))
 	sent := make([]sentInfo, len(c.Reqs))
@@ -421,12 +441,18 @@ func (rg *e2eRig) coqXcase(c xconn, i int, o xobsJ, s sentInfo) string {
 		tag, mode = rg.tagM, 2
 	case "S":
 		tag = rg.tagS
+	case "R":
+		tag = rg.tagR
 	}
 	maj, min := protoNums(q.Proto)
 	in := fmt.Sprintf("{| xi_mode := %d; xi_tag := %s; xi_client_ip := %s; xi_method := %s; xi_target := %s; xi_maj := %d; xi_min := %d; xi_fields := %s; xi_framing := %d; xi_blen := %d |}",
 		mode, coqfmt.Str(tag), coqfmt.Str("127.0.0.1"), coqfmt.Str(q.Method), coqfmt.Str(s.target), maj, min, coqFields(s.fields), framingN(q.Framing), len(s.body))
 	ob := fmt.Sprintf("{| xb_status := %d; xb_count := %d; xb_method := %s; xb_target := %s; xb_proto := %s; xb_fields := %s; xb_framing := %d; xb_blen := %d; xb_body_equal := %s |}",
 		o.Status, o.Count, coqfmt.Str(o.Method), coqfmt.Str(o.Target), coqfmt.Str(o.Proto), coqFields(o.Fields), framingN(o.Framing), o.BodyLen, coqfmt.Bool(o.BodyEqual))
+	if c.Mode == "R" {
+		u := &url.URL{Scheme: "http", Host: rg.O.Addr(), Path: "/"}
+		return "{| y_cfg := " + coqCfg(rg.cfgR, rg.cmR, u) + "; y_in := " + in + "; y_obs := " + ob + " |}"
+	}
 	return "{| x_in := " + in + "; x_obs := " + ob + " |}"
 }
 
@@ -584,11 +610,13 @@ func deniedReq(r *rng.R) xreq {
 
 func genXconn(r *rng.R) xconn {
 	c := xconn{Kind: "e2e", Mode: "D"}
-	switch r.Intn(6) {
+	switch r.Intn(7) {
 	case 0, 1:
 		c.Mode = "U"
 	case 2:
 		c.Mode = "M"
+	case 3:
+		c.Mode = "R"
 	}
 	n := 1 + r.Intn(4)
 	for i := 0; i < n; i++ {
@@ -649,6 +677,12 @@ func xcorpus() []xconn {
 			{Method: "PUT", Target: "http://" + deniedHost + "/refused", Proto: "HTTP/1.1", Fields: []g01rig.Field{{"Host", deniedHost}}, Framing: "chunked", BodyLen: 4096, BodySeed: 12, Chunks: []int{1, 4000}, Deny: true},
 			{Method: "POST", Target: "http://{O}/after-refused-chunked", Proto: "HTTP/1.1", Fields: []g01rig.Field{h}, Framing: "cl", BodyLen: 100, BodySeed: 13},
 		}},
+		{Kind: "e2e", Mode: "R", Reqs: []xreq{ // header rules and site credentials
+			{Method: "GET", Target: "/rules", Proto: "HTTP/1.1", Fields: []g01rig.Field{h, {"X-B", "removed"}, {"X-Custom-Id", "a"}, {"X-A", "kept"}, {"Cookie", "a=b"}, {"Sec-WebSocket-Key", "k"}}, Framing: "none"},
+			{Method: "POST", Target: "http://{O}/rules-auth", Proto: "HTTP/1.1", Fields: []g01rig.Field{h, {"Authorization", "Bearer client"}}, Framing: "cl", BodyLen: 10, BodySeed: 21},
+			{Method: "GET", Target: "/rules-empty-auth", Proto: "HTTP/1.1", Fields: []g01rig.Field{h, {"Authorization", ""}, {"Authorization", "Bearer second"}}, Framing: "none"},
+			{Method: "GET", Target: "/rules-nominated-auth", Proto: "HTTP/1.1", Fields: []g01rig.Field{h, {"Connection", "authorization"}, {"Authorization", "Bearer nominated"}}, Framing: "none"},
+		}},
 		{Kind: "e2e", Mode: "D", Reqs: []xreq{ // an upgrade request answered without 101, then an ordinary request
 			{Method: "GET", Target: "/ws-refused", Proto: "HTTP/1.1", Fields: []g01rig.Field{h, {"Connection", "Upgrade"}, {"Upgrade", "websocket"}}, Framing: "none"},
 			{Method: "GET", Target: "/after-refused-upgrade", Proto: "HTTP/1.1", Fields: []g01rig.Field{h, {"X-A", "plain"}}, Framing: "none"},
@@ -679,8 +713,8 @@ func runE2E(r *rng.R, tier, out string, m *meta) {
 	if tier == "thorough" {
 		nX = 6000
 	}
-	var xc []string
-	var xj []any
+	var xc, yc []string
+	var xj, yj []any
 	stats := map[string]int{}
 	conns := xcorpus()
 	total := 0
@@ -747,6 +781,11 @@ func runE2E(r *rng.R, tier, out string, m *meta) {
 			} else if q.BodyLen >= 4096 {
 				stats["body>=4KiB"]++
 			}
+			if c.Mode == "R" {
+				yc = append(yc, rg.coqXcase(c, i, o, sent[i]))
+				yj = append(yj, xrec{Conn: c, Index: i, Kind: "e2e", Obs: o})
+				continue
+			}
 			xc = append(xc, rg.coqXcase(c, i, o, sent[i]))
 			xj = append(xj, xrec{Conn: c, Index: i, Kind: "e2e", Obs: o})
 		}
@@ -776,6 +815,25 @@ func runE2E(r *rng.R, tier, out string, m *meta) {
 	}
 	writeJSONL(out, "xcases.jsonl", xj)
 	m.Samples = append(m.Samples, xj[len(xj)-1])
+	m.E2E["configured_exchanges"] = len(yc)
+	m.E2E["configuration"] = rg.cfgR
+	for i := 0; i*size < len(yc); i++ {
+		hi := min((i+1)*size, len(yc))
+		writeShardY(out, i, yc[i*size:hi])
+		m.Shards = append(m.Shards, fmt.Sprintf("ycases_%03d.v", i))
+	}
+	writeJSONL(out, "ycases.jsonl", yj)
+}
+
+func writeShardY(dir string, idx int, cases []string) {
+	var sb strings.Builder
+	sb.WriteString("From G01 Require Import ReqE2E.\nOpen Scope N_scope.\n")
+	fmt.Fprintf(&sb, "Definition cases : list ycase :=\n  %s.\n", coqfmt.List("ycase", cases))
+	sb.WriteString("Definition M := Eval vm_compute in (bad ycase_model_ok cases).\n")
+	sb.WriteString("Definition P := Eval vm_compute in (bad ycase_prop_ok cases).\n")
+	sb.WriteString("Definition D := Eval vm_compute in (diag_bad ydiag cases).\n")
+	sb.WriteString("Print M.\nPrint P.\nPrint D.\n")
+	os.WriteFile(fmt.Sprintf("%s/ycases_%03d.v", dir, idx), []byte(sb.String()), 0o644)
 }
 
 // runConcurrent: nWorkers clients at the same time through the same proxy instance, each with its own Via chain,
@@ -891,8 +949,14 @@ func replayE2E(data []byte, out string, m *meta) {
 		fmt.Printf("replay e2e #%d: %s %s -> status=%d origin_requests=%d target=%q framing=%s body=%d equal=%v err=%s\n",
 			i, rp.Conn.Reqs[i].Method, sent[i].target, o.Status, o.Count, o.Target, o.Framing, o.BodyLen, o.BodyEqual, o.Err)
 	}
-	writeShardX(out, 0, xc)
+	if rp.Conn.Mode == "R" {
+		writeShardY(out, 0, xc)
+		m.Shards = []string{"ycases_000.v"}
+		writeJSONL(out, "ycases.jsonl", xj)
+	} else {
+		writeShardX(out, 0, xc)
+		m.Shards = []string{"xcases_000.v"}
+		writeJSONL(out, "xcases.jsonl", xj)
+	}
 	m.E2E["shard_size"] = len(xc)
-	m.Shards = []string{"xcases_000.v"}
-	writeJSONL(out, "xcases.jsonl", xj)
 }
